@@ -1,7 +1,13 @@
+mod batchrun;
 mod cgrdec;
+mod containers;
+mod ctrrun;
+mod paths;
 mod facts;
 mod files;
 mod gen;
+mod mmaprun;
+mod sched;
 mod tables;
 mod traces;
 mod util;
@@ -14,6 +20,11 @@ where
 }
 
 fn main() {
+    // a panic of the code under test is data: one short line on stderr, no backtrace
+    std::panic::set_hook(Box::new(|info| {
+        let loc = info.location().map(|l| format!("{}:{}", l.file(), l.line())).unwrap_or_default();
+        eprintln!("panic under test at {}", loc);
+    }));
     let a: Vec<String> = std::env::args().skip(1).collect();
     let cmd: Vec<&str> = a.iter().map(|s| s.as_str()).collect();
     match cmd.as_slice() {
@@ -34,6 +45,13 @@ fn main() {
         ["decode", "ocgr", ..] => facts::decode_ocgr(&a[2], &a[3], arg(&a, 4), arg(&a, 5), a[6] == "1", &a[7]),
         ["gen", "fasta", ..] => facts::gen_fasta(arg(&a, 2), arg(&a, 3), arg(&a, 4), &a[5], a.get(6).map(|x| x == "clean").unwrap_or(false)),
         ["table", "ocgr", ..] => tables::ocgr(arg(&a, 2), arg(&a, 3), arg(&a, 4), &a[5], &a[6]),
+        ["replay", "oligommap", ..] => mmaprun::replay(&a[2], arg(&a, 3), arg(&a, 4), &a[5], arg(&a, 6), arg(&a, 7)),
+        ["trace", "oligommap", ..] => mmaprun::free(arg(&a, 2), arg(&a, 3), &a[4], arg(&a, 5)),
+        ["trace", "oligobatch", ..] => batchrun::oligo_batch(arg(&a, 2), arg(&a, 3), &a[4], arg(&a, 5)),
+        ["trace", "oligopaths", ..] => paths::oligo_paths(arg(&a, 2), arg(&a, 3), &a[4], arg(&a, 5)),
+        ["trace", "counter", ..] => ctrrun::free(arg(&a, 2), arg(&a, 3), &a[4], arg(&a, 5)),
+        ["trace", "ctrstress", ..] => ctrrun::stress(arg(&a, 2), arg(&a, 3), &a[4], arg(&a, 5)),
+        ["replay", "counter", ..] => ctrrun::replay(&a[2], arg(&a, 3), arg(&a, 4), &a[5], arg(&a, 6), arg(&a, 7)),
         ["table", "revcomp", ..] => tables::revcomp(arg(&a, 2)),
         ["table", "posmap", ..] => tables::posmap(arg(&a, 2)),
         ["trace", "rc", ..] => traces::rc(arg(&a, 2), arg(&a, 3)),
